@@ -258,6 +258,12 @@ def check_case(ctx, case):
     from csep.core.regions import CartesianGrid2D
     region = CartesianGrid2D.from_origins(numpy.array([[0.0, 0.0]]), dh=1.0, magnitudes=bins)
     cat = CSEPCatalog(data=[("e%d" % i, 0, 0.5, 0.5, 1.0, v) for i, v in enumerate(vals)], region=region)
+    if n >= 2:
+        # a gridding with explicit bins of its own (refused when a value lies below them; not judged) must leave the region's grid alone
+        other = numpy.array([float(b) + 0.37 * float(step) for b in bins])
+        call(lambda: cat.spatial_magnitude_counts(mag_bins=other))
+        call(lambda: CSEPCatalog(data=[("low", 0, 0.5, 0.5, 1.0, float(bins[0]) - 1.0)], region=region).spatial_magnitude_counts(mag_bins=other))
+        ctx.count("refused_explicit_bin_griddings_before_the_observers")
     o = call(cat.get_mag_idx)
     if not o.ok:
         ctx.unexpected(o, "get_mag_idx")
